@@ -27,7 +27,7 @@ class Report:
         self.log("  [%s] M %-58s %s %s" % (self.pid, name[:58], res, (detail or {}).get("note", "")))
 
     def replay_file(self, case, text):
-        d = os.path.join(VERIF, "replays", self.pid)
+        d = os.path.join(os.environ["VERIF_BUILD"], "replays", self.pid) if os.environ.get("VERIF_BUILD") else os.path.join(VERIF, "replays", self.pid)
         os.makedirs(d, exist_ok=True)
         p = os.path.join(d, case + ".txt")
         open(p, "w").write(text)
